@@ -178,6 +178,18 @@ def make_externals():
     def nanf(interp, st, args, n):
         return [(st, ("nan", 32))]
     X["__builtin_nanf"] = nanf
+
+    # floating-point library functions: the result is a floating-point value, which this engine never interprets (Opaque).
+    # Contracts that need an exact integer then fail their integer-arithmetic clause instead of leaving the check undecided.
+    def fmath(nm):
+        def h(interp, st, args, n):
+            return [(st, Opaque("floating point: %s()" % nm))]
+        return h
+    for nm in ("ceil", "ceill", "ceilf", "floor", "floorl", "floorf", "round", "roundl", "roundf", "trunc", "truncl", "fmod", "fmodl", "rint", "rintl",
+               "nearbyint", "nearbyintl", "fabs", "fabsl", "pow", "powl", "ldexp", "ldexpl"):
+        X[nm] = fmath(nm)
+    for nm in ("llround", "llroundl", "lround", "lroundl", "llrint", "llrintl", "lrint", "lrintl"):
+        X[nm] = fmath(nm)
     X["__builtin_nan"] = lambda interp, st, args, n: [(st, ("nan", 64))]
     TRUSTED["__builtin_nanf"] = "NAN is a quiet NaN of the float type (0x7FC00000)"
 
